@@ -108,6 +108,13 @@ func Concretize(x int) int { return x }
 
 func IsPrint(r rune) bool { return unicode.IsPrint(r) }
 
+// CaseFixed: r is its own lower- and upper-case form.
+func CaseFixed(r rune) bool { return unicode.ToLower(r) == r && unicode.ToUpper(r) == r }
+
+// TextRune assumes r is a scalar value that is Latin-1 or has no case mapping (the cheap
+// alphabet: all of ASCII/Latin-1, and every caseless rune of any UTF-8 length).
+func TextRune(r rune) bool { return ValidRune(r) && (r <= 0xff || CaseFixed(r)) }
+
 // Hooks by which harnesses play the environment (engine side: called by the stubs of
 // os.File, fmt.Print*, ioctl; native side: installed by the pty driver where needed).
 var (
